@@ -113,7 +113,7 @@ func unparsedSectionSpec(c *layout.Checker) []*layout.Source {
 func tableIDExt(*layout.Source) *lin.Form { f := lin.Sym("$tableIDExtension"); return &f }
 
 func c13SpecPairs(c *Ctx) []layout.RTPair {
-	timeWhy := "MJD/BCD calendar arithmetic (property C15: not decidable statically); the field's width is specified, its value is not interpreted"
+	timeWhy := "MJD/BCD calendar arithmetic (decided by the rules G1–G4 of C15, which this check also runs); the field's width is specified, its value is not interpreted"
 	return []layout.RTPair{
 		{Name: "psi-section-header", Parser: c.fn("parsePSISectionHeader"), Sources: sectionHeaderSpec, It: "$i", Root: "$h", RootPtr: true, MinSources: 7,
 			NotWritten: map[string]string{"TableType": "a name derived from table_id (truth table T1), not a field of the stream"}},
